@@ -191,6 +191,25 @@ func run(rt *rapid.T) {
 		} else {
 			part = wmpt.New(nil, nil)
 		}
+	} else if len(req) >= 1 && gen.Chance(rt, 25, "reloadsame") {
+		// the receiver already holds this very export, has taken speculative changes (root never read, or read), and
+		// is reset by loading the same bytes again
+		if part.Deserialize(data) == nil {
+			for i := gen.Uniform(rt, 1, 3, "nspec"); i > 0; i-- {
+				k := gen.Pick(rt, req, "speckey")
+				if _, live := src.Model[string(k)]; live && gen.Chance(rt, 50, "specdel") {
+					_ = part.Update(k, nil, 0)
+				} else {
+					_ = part.Update(k, []byte{0xee, byte(i)}, 4)
+				}
+			}
+			if gen.Chance(rt, 30, "specroot") {
+				_ = part.Root()
+			}
+			ev.Class("receiver-reset-by-loading-the-same-export-again", 1)
+		} else {
+			part = wmpt.New(nil, nil)
+		}
 	}
 	if err := part.Deserialize(data); err != nil {
 		rt.Fatalf("Deserialize(GetPath): %v\n%s", err, desc())
@@ -369,6 +388,66 @@ func TestLargeExport(t *testing.T) {
 				t.Fatalf("export of %d keys of %d: after the same update partial trie root %x weight %d, source %x weight %d, expected weight %d", len(req), nkeys, part.Root(), part.Weight(), src.Root(), src.Weight(), total)
 			}
 			ev.Case(fmt.Sprintf("large-export %d of %d", len(req), nkeys), len(req) > 65536, "large-export", fmt.Sprintf("requested:%d", len(req)))
+		}
+	})
+}
+
+// The deepest shape a 32-byte key allows: a base key and, for each of its 64 nibbles, a key that leaves it exactly
+// there - the base key's path is a branch on every level (65 nodes with the value). Exports for the base key, for its
+// last-nibble twin and for all keys must load and evolve like the source.
+func TestFullComb(t *testing.T) {
+	ev.Guard(t, "TestFullComb", func() {
+		salt := ev.SeedFor("TestFullComb")
+		base := sha256.Sum256([]byte(fmt.Sprintf("comb/%d", salt)))
+		keys := [][]byte{append([]byte(nil), base[:]...)}
+		for i := 0; i < 64; i++ {
+			k := append([]byte(nil), base[:]...)
+			if i%2 == 0 {
+				k[i/2] ^= 0x10 << (salt % 4)
+			} else {
+				k[i/2] ^= 0x01 << (salt % 4)
+			}
+			keys = append(keys, k)
+		}
+		for _, mode := range []string{"memory", "committed"} {
+			var db *memkv.Store
+			if mode == "committed" {
+				db = memkv.New()
+			}
+			var src *wmkit.Machine
+			src = wmkit.New(db, func(f string, a ...any) { t.Fatalf("%s (%s)", fmt.Sprintf(f, a...), mode) })
+			for i, k := range keys {
+				src.Update(k, []byte{byte(i), 0x51, byte(salt)})
+			}
+			if db != nil {
+				src.Commit(int(salt % 3))
+			}
+			for name, req := range map[string][][]byte{"the base key": {keys[0]}, "the last-nibble twin": {keys[64]}, "base key and twin": {keys[0], keys[64]}, "all keys": keys} {
+				_ = src.T.Root()
+				data, err := src.T.GetPath(req)
+				if err != nil {
+					t.Fatalf("%s comb: GetPath(%s): %v", mode, name, err)
+				}
+				part := wmpt.New(nil, nil)
+				if err := part.Deserialize(data); err != nil {
+					t.Fatalf("%s comb of 65 keys: the export for %s cannot be imported: %v", mode, name, err)
+				}
+				if !bytes.Equal(part.Root(), src.T.Root()) || part.Weight() != src.T.Weight() {
+					t.Fatalf("%s comb: export for %s: partial trie root %x weight %d, source %x weight %d", mode, name, part.Root(), part.Weight(), src.T.Root(), src.T.Weight())
+				}
+				v := []byte{0x77, byte(len(req)), byte(salt)}
+				if err := part.Update(req[0], v, wmkit.WeightOf(v)); err != nil {
+					t.Fatalf("%s comb: export for %s: update of a requested key on the partial trie: %v", mode, name, err)
+				}
+				src.Update(req[0], v)
+				if db != nil {
+					src.Commit(int(salt % 3))
+				}
+				if !bytes.Equal(part.Root(), src.T.Root()) || part.Weight() != src.T.Weight() {
+					t.Fatalf("%s comb: export for %s: after the same update the partial trie has root %x weight %d, the source %x weight %d", mode, name, part.Root(), part.Weight(), src.T.Root(), src.T.Weight())
+				}
+				ev.Case(fmt.Sprintf("comb/%s/%s", mode, name), true, "full-comb-of-65-keys")
+			}
 		}
 	})
 }
